@@ -38,7 +38,12 @@ class Contain:
         if self.mode == "shape":
             ans = bool(A in B) if self.swap else bool(B in A)
         else:
-            ans = bool(A.contains_jordan(B.jordans[0], self.flag))
+            # the curve is the first boundary polygon of B's independent description (a composite shape orders its
+            # own curves by area, so B.jordans[0] need not be that one)
+            from shapepy import JordanCurve
+
+            curve = R.polys_of(geom.region_of_name(self.B, tx, ty))[0]
+            ans = bool(A.contains_jordan(JordanCurve.from_vertices(curve), self.flag))
         return {"ans": ans}
 
     # regions: inner must be a subset of (the closure of) outer
